@@ -74,4 +74,109 @@ theorem sum_cnt (t : ℕ) : ∑ i, cnt w pick i t = (t : ℤ) := by
     rw [Finset.sum_add_distrib, ih]
     simp [Finset.sum_ite_eq]
 
+
+/-- the selected backend has maximal current weight (any tie-break) -/
+def IsArgmax (pick : (Fin n → ℤ) → Fin n) : Prop :=
+  ∀ (c : Fin n → ℤ) (i : Fin n), c i ≤ c (pick c)
+
+theorem W_pos (hw : ∀ i, 0 < w i) (i0 : Fin n) : 0 < W w := by
+  unfold W
+  exact Finset.sum_pos (fun i _ => hw i) ⟨i0, Finset.mem_univ _⟩
+
+/-- if the current weights sum to something positive, the maximal one is positive -/
+theorem max_pos (hp : IsArgmax pick) (c : Fin n → ℤ) (hs : 0 < ∑ i, c i) : 0 < c (pick c) := by
+  by_contra h
+  rw [not_lt] at h
+  have : ∑ i, c i ≤ 0 := Finset.sum_nonpos (fun i _ => le_trans (hp c i) h)
+  omega
+
+/-- no current weight ever drops to `weight - W` or below -/
+theorem lower_bound (hw : ∀ i, 0 < w i) (hp : IsArgmax pick) (i0 : Fin n) (t : ℕ) (i : Fin n) :
+    w i - W w < state w pick t i := by
+  have hW := W_pos hw i0
+  induction t generalizing i with
+  | zero => simp [state]; exact hW
+  | succ t ih =>
+    simp only [state, step]
+    rw [sum_state]
+    by_cases h : i = pick (state w pick t)
+    · have hm : 0 < state w pick t (pick (state w pick t)) :=
+        max_pos hp _ (by rw [sum_state]; exact hW)
+      subst h
+      simp
+      omega
+    · simp [h]
+      have := ih i
+      have := hw i
+      omega
+
+theorem cnt_nonneg (i : Fin n) (t : ℕ) : 0 ≤ cnt w pick i t := by
+  induction t with
+  | zero => simp [cnt]
+  | succ t ih =>
+    simp only [cnt]
+    split_ifs <;> omega
+
+
+/-- after `W` selections backend `i` has been selected exactly `w i` times -/
+theorem cnt_W (hw : ∀ i, 0 < w i) (hp : IsArgmax pick) (i0 : Fin n) (i : Fin n) :
+    cnt w pick i (W w).toNat = w i := by
+  have hW := W_pos hw i0
+  have hcast : (((W w).toNat : ℕ) : ℤ) = W w := Int.toNat_of_nonneg hW.le
+  -- each count is at most the weight
+  have hle : ∀ j, cnt w pick j (W w).toNat ≤ w j := by
+    intro j
+    have hl := lower_bound hw hp i0 (W w).toNat j
+    rw [closed_form, hcast] at hl
+    by_contra hc
+    rw [not_le] at hc
+    have h1 : w j + 1 ≤ cnt w pick j (W w).toNat := hc
+    have h2 : W w * (w j + 1) ≤ W w * cnt w pick j (W w).toNat :=
+      mul_le_mul_of_nonneg_left h1 hW.le
+    nlinarith
+  -- and the counts add up to the sum of the weights
+  have hsum : ∑ j, (w j - cnt w pick j (W w).toNat) = 0 := by
+    rw [Finset.sum_sub_distrib, sum_cnt, hcast]
+    simp [W]
+  have hzero := (Finset.sum_eq_zero_iff_of_nonneg (fun j _ => sub_nonneg.mpr (hle j))).mp hsum i
+    (Finset.mem_univ _)
+  omega
+
+/-- the state after `W` selections is the initial state -/
+theorem period (hw : ∀ i, 0 < w i) (hp : IsArgmax pick) (i0 : Fin n) :
+    state w pick (W w).toNat = w := by
+  funext i
+  have hW := W_pos hw i0
+  have hcast : (((W w).toNat : ℕ) : ℤ) = W w := Int.toNat_of_nonneg hW.le
+  rw [closed_form, cnt_W hw hp i0, hcast]
+  ring
+
+/-- the state sequence (hence the selection sequence `pick (state t)`) repeats with period `W` -/
+theorem periodic (hw : ∀ i, 0 < w i) (hp : IsArgmax pick) (i0 : Fin n) (t : ℕ) :
+    state w pick (t + (W w).toNat) = state w pick t := by
+  induction t with
+  | zero =>
+    rw [Nat.zero_add]
+    exact period hw hp i0
+  | succ t ih =>
+    have : t + 1 + (W w).toNat = (t + (W w).toNat) + 1 := by omega
+    rw [this]
+    simp only [state]
+    rw [ih]
+
+/-- every window of `W` consecutive selections selects backend `i` exactly `w i` times -/
+theorem window_exact (hw : ∀ i, 0 < w i) (hp : IsArgmax pick) (i0 : Fin n) (s : ℕ) (i : Fin n) :
+    cnt w pick i (s + (W w).toNat) - cnt w pick i s = w i := by
+  have hW := W_pos hw i0
+  have hcast : (((W w).toNat : ℕ) : ℤ) = W w := Int.toNat_of_nonneg hW.le
+  have h := congrFun (periodic hw hp i0 s) i
+  rw [closed_form, closed_form] at h
+  push_cast at h
+  rw [hcast] at h
+  have h3 : W w * (cnt w pick i (s + (W w).toNat) - cnt w pick i s - w i) = 0 := by
+    linarith
+  rcases mul_eq_zero.mp h3 with h4 | h4
+  · omega
+  · omega
+
 end Swrr
